@@ -5,6 +5,7 @@ import Octo.Model.Vmess
 import Octo.Model.Trojan
 import Octo.Model.Socks5
 import Octo.Model.SsUdp
+import Octo.Model.Config
 import Octo.Spec.Wire
 import Octo.Crypto.Real
 import Std.Data.HashMap
@@ -426,6 +427,27 @@ def step (st : St) (toks : List String) : St × String :=
         let tsOk := ¬ o.ctx.kind.is2022 ∨ (now ≤ rnd.now + 1 ∧ rnd.now ≤ now + 1)
         (st, (if tsOk then "" else "bad-ts ") ++ hexOrDash (SsUdp.encode C o.ctx .server ⟨csid, ssid, pid, user⟩ a p rnd))
     | _, _, _, _, _, _ => (st, "bad-op")
+  | ["cfg.cipher", h] =>
+    match (unhexOrDash h).bind (fun b => String.fromUTF8? (ByteArray.mk b.toArray)) with
+    | some name =>
+      match Config.cipherOf name with
+      | some ci => (st, s!"ok {ci.variant} 2022={if ci.is2022 then 1 else 0} eih={if ci.eih then 1 else 0}")
+      | none => (st, "err")
+    | none => (st, "err")
+  | ["cfg.mode", h] =>
+    match (unhexOrDash h).bind (fun b => String.fromUTF8? (ByteArray.mk b.toArray)) with
+    | some name =>
+      match Config.listenersOf name with
+      | some l => (st, s!"ok tcp={if l.tcp then 1 else 0} udp={if l.udp then 1 else 0} quic={if l.quic then 1 else 0}")
+      | none => (st, "err")
+    | none => (st, "err")
+  | ["cfg.protocol", h] =>
+    match (unhexOrDash h).bind (fun b => String.fromUTF8? (ByteArray.mk b.toArray)) with
+    | some name =>
+      match Config.lookup Consts.protocolNames name with
+      | some v => (st, s!"ok {v}")
+      | none => (st, "err")
+    | none => (st, "err")
   | ["s5.dec", kind, h] =>
     match unhexOrDash h with
     | none => (st, "bad-op")
